@@ -152,9 +152,13 @@ def _implementation_raised(mod, chunk, e):
     if not tb:
         return None
     root = os.path.realpath(os.path.join(REPO, 'modules')) + os.sep
-    last = tb[-1]
-    if not os.path.realpath(last.filename).startswith(root):
+    here = os.path.realpath(VERIF) + os.sep
+    # the exception left the harness through the repository's code: the frame right below the last harness frame is the
+    # implementation's (the innermost frame may be the standard library's, e.g. re.error raised inside re.sub)
+    harness = [i for i, fr in enumerate(tb) if os.path.realpath(fr.filename).startswith(here)]
+    if not harness or harness[-1] + 1 >= len(tb) or not os.path.realpath(tb[harness[-1] + 1].filename).startswith(root):
         return None
+    last = [fr for fr in tb if os.path.realpath(fr.filename).startswith(root)][-1]
     r = ChunkResult()
     r.evals = 1
     r.outcomes.add('implementation-raised')
@@ -226,8 +230,12 @@ def run_check(mod, tier, seed, procs=None):
     if harness_errors:
         for he in harness_errors[:3]:
             sys.stderr.write('HARNESS ERROR in chunk %r\n%s\n' % (he['chunk'], he['harness_error']))
-        sys.stderr.write('%d chunk(s) failed inside the harness; no verdict.\n' % len(harness_errors))
-        return 2
+        if not agg.violations:
+            sys.stderr.write('%d chunk(s) failed inside the harness; no verdict.\n' % len(harness_errors))
+            return 2
+        # violations found elsewhere are real whatever happened to the failed chunks: report them (exit 1)
+        sys.stderr.write('%d chunk(s) failed inside the harness; the violations found by the other chunks are reported.\n'
+                         % len(harness_errors))
 
     extra_cov = {}
     if hasattr(mod, 'finish'):
@@ -328,6 +336,10 @@ def run_replay(mod, path):
     setup_path()
     with open(path) as f:
         rec = json.load(f)
+    if isinstance(rec.get('case'), dict) and rec['case'].get('_python_O') and not sys.flags.optimize:
+        # found in a python -O interpreter: replay there
+        import subprocess
+        return subprocess.call([PY, '-O', '-m', 'mc.run', mod.PROPERTY, '--replay', path], cwd=VERIF)
     outs = []
     for _ in range(2):
         if set(rec['case']) == {'chunk'}:
